@@ -9,7 +9,7 @@ From TL Require Import Lib.Base Lib.GenTypes Gen.MagicGen Model.MagicNum Model.M
 Definition flags_off (lg : mlang) (q : mquirks) : Prop :=
   match lg with
   | MPy => q_py_upper_neg_flagged q = false /\ q_py_upper_ann_flagged q = false /\ q_py_upper_tuple_flagged q = false
-  | MTs => q_ts_test_marker_anywhere q = false
+  | MTs => q_ts_test_marker_anywhere q = false /\ q_ts_single_letter_const q = false
   | MRs => True
   end.
 
@@ -18,7 +18,7 @@ Theorem report_exact lg q cfg f :
 Proof.
   destruct lg; cbn [flags_off report].
   - intros [H2 [H3 H4]]. apply py_report_exact; assumption.
-  - intros H3. apply ts_report_exact; assumption.
+  - intros [H3 H4]. apply ts_report_exact; assumption.
   - intros _. apply rs_report_exact.
 Qed.
 
@@ -210,14 +210,14 @@ Theorem ts_extract_total pq bq l raw :
   lit_ok MTs l = true -> lit_raw l = Some raw -> ts_extract pq bq (lit_chars l) = Some raw.
 Proof.
   intros Hok Hr.
-  exact (ts_lit_extract (Build_mquirks false false false false pq bq false false) l raw Hok Hr).
+  exact (ts_lit_extract (Build_mquirks false false false false pq bq false false false) l raw Hok Hr).
 Qed.
 
 Theorem rs_extract_total tbl l raw :
   lit_ok MRs l = true -> lit_raw l = Some raw -> rs_extract tbl (rs_node_type l) (lit_chars l) = Some raw.
 Proof.
   intros Hok Hr.
-  exact (rs_lit_extract (Build_mquirks false false false false false false false tbl) l raw Hok Hr).
+  exact (rs_lit_extract (Build_mquirks false false false false false false false false tbl) l raw Hok Hr).
 Qed.
 
 (* what is reported is reported once per occurrence, on its line, naming its value — for the model with the flags off *)
